@@ -140,6 +140,7 @@ func (p *Program) verifyFunc(t *target) (vc *VC, rep *FuncReport) {
 	x.lookupHeap(st, "top", "Int")
 	x.assume(st, fmt.Sprintf("(> %s 0)", st.heap["top"].T))
 	// receiver and parameters
+	paramObjs := map[string]types.Object{}
 	bind := func(id *ast.Ident) {
 		if id == nil || id.Name == "_" {
 			return
@@ -148,6 +149,7 @@ func (p *Program) verifyFunc(t *target) (vc *VC, rep *FuncReport) {
 		if obj == nil {
 			return
 		}
+		paramObjs[id.Name] = obj
 		v := x.havocVal(st, id.Name, obj.Type())
 		x.knownRef(st, v)
 		vc.inputs = append(vc.inputs, v.T)
@@ -326,6 +328,13 @@ func (p *Program) verifyFunc(t *target) (vc *VC, rep *FuncReport) {
 	}
 	for k, v := range x.entry {
 		names[k] = v
+	}
+	// final_<param>: the value the parameter variable holds at the return (a map held in a value receiver or
+	// parameter is written through the local copy; the caller sees those writes)
+	for n, obj := range paramObjs {
+		if _, ok := final.vars[obj]; ok || x.boxed[obj] {
+			names["final_"+n] = x.getVar(final, obj)
+		}
 	}
 	resVals = nil
 	for _, r := range x.results {
